@@ -330,13 +330,20 @@ var magicPrefix = map[family][]string{
 	famGBK:    {"\x05\x00\x03xza", "\x06\x08\x04xxza"},
 }
 
+// nfcUnstable: characters a Unicode normalisation would change - combining marks (after a base letter they compose),
+// singleton look-alikes (OHM, KELVIN, ANGSTROM signs), a CJK compatibility ideograph. A text is the code points the
+// caller passed, not their canonical equivalent.
+const nfcUnstable = "\u0301\u0308\u030a\u0327\u2126\u212a\u212b\uf900\u0340\u1e9b\u0323"
+
 // nearRepertoire: characters that sit next to a repertoire's members - case or accent variants of members, members
 // that resemble non-members - so that a table entry too many or too few shows.
 var nearRepertoire = map[family][]rune{
-	famGSM7U:  []rune("çÇàÀáéÉèÈêíìÌóòÒôúùÙûñÑäÄöÖüÜåÅæÆøØßẞ¡¿£¥¤€¢§©µ`´^~|\\{}[]\tΩωΔδΦφΓγΛλΠπΨψΣσΘθΞξαβ\u00a0\u00ad"),
-	famGSM7P:  []rune("çÇàÀáéÉèÈêíìÌóòÒôúùÙûñÑäÄöÖüÜåÅæÆøØßẞ¡¿£¥¤€¢§©µ`´^~|\\{}[]\tΩωΔδΦφΓγΛλΠπΨψΣσΘθΞξαβ\u00a0\u00ad"),
-	famASCII:  []rune("\u007f\u0080\u00a0\u00e9\u00ff\u0100\u2019\u201c\t\x01"),
-	famLatin1: []rune("\u0080\u0081\u008d\u0090\u009d\u009f\u00a0\u00ff\u0100\u0152\u0153\u0160\u0178\u017d\u0192\u02c6\u2013\u2022\u20ac\u2122\u2260\ufffd"),
+	famGSM7U:  []rune("çÇàÀáéÉèÈêíìÌóòÒôúùÙûñÑäÄöÖüÜåÅæÆøØßẞ¡¿£¥¤€¢§©µ`´^~|\\{}[]\tΩωΔδΦφΓγΛλΠπΨψΣσΘθΞξαβ\u00a0\u00ad" + nfcUnstable),
+	famGSM7P:  []rune("çÇàÀáéÉèÈêíìÌóòÒôúùÙûñÑäÄöÖüÜåÅæÆøØßẞ¡¿£¥¤€¢§©µ`´^~|\\{}[]\tΩωΔδΦφΓγΛλΠπΨψΣσΘθΞξαβ\u00a0\u00ad" + nfcUnstable),
+	famASCII:  []rune("\u007f\u0080\u00a0\u00e9\u00ff\u0100\u2019\u201c\t\x01" + nfcUnstable),
+	famLatin1: []rune("\u0080\u0081\u008d\u0090\u009d\u009f\u00a0\u00ff\u0100\u0152\u0153\u0160\u0178\u017d\u0192\u02c6\u2013\u2022\u20ac\u2122\u2260\ufffd" + nfcUnstable),
+	famUCS2:   []rune(nfcUnstable),
+	famGBK:    []rune(nfcUnstable),
 }
 
 // lsBuilder: the batch builder value of the current run (see splitAndSend).
